@@ -5,11 +5,10 @@ use serde_json::json;
 
 use crate::cases::CaseSink;
 use crate::coqfmt::ToCoq;
-use crate::props::link::{drive_end, lcase_term, link_script, Strat};
+use crate::props::link::{drive_end, lcase_term, link_script, Clock, LMode, Strat};
 use crate::rng::Rng;
 use crate::startdrv::{drive_binary_chain, Del};
 use crate::Opts;
-use renoir::BatchMode;
 
 fn del_coq(d: &Del<i64, i64>) -> String {
     match d { Del::L(s, b) => format!("DL {} {}", s.coq(), b.coq()), Del::R(s, b) => format!("DR {} {}", s.coq(), b.coq()) }
@@ -64,13 +63,14 @@ pub fn generate(opts: &Opts, sink: &mut CaseSink) {
         let broadcast = i % 2 == 0;
         let strat = if broadcast { Strat::All } else { *rng.pick(&[Strat::GroupBy, Strat::Random]) };
         let blocks: Vec<u64> = if broadcast { vec![rng.range(1, 5) as u64] } else { (0..rng.range(2, 4)).map(|_| rng.range(1, 4) as u64).collect() };
-        let fixed = *rng.pick(&[None, Some(1usize), Some(3), Some(1024)]);
+        let fixed = LMode::random(&mut rng);
         let script = link_script(&mut rng);
-        let mode = match fixed { Some(k) => BatchMode::fixed(k), None => BatchMode::single() };
-        let recv = drive_end(strat, mode, &blocks, script.clone()).unwrap_or_else(|m| { eprintln!("C09 End: {m}"); blocks.iter().map(|k| vec![vec![]; *k as usize]).collect() });
+        let mode = fixed.batch_mode();
+        let clock = Clock::random(&mut rng, script.len());
+        let recv = drive_end(strat, mode, &blocks, script.clone(), &clock).unwrap_or_else(|m| { eprintln!("C09 End: {m}"); blocks.iter().map(|k| vec![vec![]; *k as usize]).collect() });
         sink.count(if broadcast { "broadcast" } else { "split_branches" });
         let nd = script.iter().filter(|e| matches!(e, E::Item(_) | E::Timestamped(_, _))).count();
-        sink.push(format!("(CFan {})", lcase_term(strat, fixed, &blocks, &script, &recv)),
+        sink.push(format!("(CFan {})", lcase_term(strat, fixed, &blocks, &script, &recv, &clock)),
                   json!({"kind": if broadcast {"broadcast"} else {"split"}, "downstream_replicas": blocks, "input": format!("{:?}", script), "received": format!("{:?}", recv)}), nd >= 3);
     }
 }
